@@ -55,6 +55,7 @@ class Tracer:
         self.pre_meta = {}        # id(new node) -> metadata_props the replacement function gave it
         self.fn_tokens_done = set()
         self.tops = [0]           # the serialized graph objects: model graph and functions
+        self.namefix = []         # (label, token graph, final-name graph, (token, name) pairs, visible names) after NameFixPass
 
     # ---- tokens
     def token(self, v):
@@ -99,24 +100,29 @@ class Tracer:
             val(v)
 
     # ---- literals
-    def node_lit(self, n):
-        ins = clist([self.token(v) for v in n.inputs], lambda t: "None" if t is None else f"(Some {cstr(t)})")
-        outs = clist([self.token(v) for v in n.outputs], cstr)
+    def node_lit(self, n, namer=None, no_inits=False):
+        tk = namer or self.token
+        ins = clist([tk(v) for v in n.inputs], lambda t: "None" if t is None else f"(Some {cstr(t)})")
+        outs = clist([tk(v) for v in n.outputs], cstr)
         attrs, subs = [], []
         for name in sorted(n.attributes):
             a = n.attributes[name]
             if not a.is_ref() and a.type.name == "GRAPH":
-                subs.append(f"({cstr(name)}, {self.graph_lit(a.value)})")
+                subs.append(f"({cstr(name)}, {self.graph_lit(a.value, namer, no_inits)})")
             elif not a.is_ref() and a.type.name == "GRAPHS":
                 for i, g in enumerate(a.value):
-                    subs.append(f"({cstr(name + '#' + str(i))}, {self.graph_lit(g)})")
+                    subs.append(f"({cstr(name + '#' + str(i))}, {self.graph_lit(g, namer, no_inits)})")
             else:
                 attrs.append(f"({cstr(name)}, AStr {cstr(_digest_attr(a))})")
         op = n.op_type + (":" + n.overload if n.overload else "")
         return f"(Node {cstr(n.domain if n.domain != 'ai.onnx' else '')} {cstr(op)} {ins} {outs} {clist(attrs)} {clist(subs)})"
 
-    def graph_lit(self, g):
+    def graph_lit(self, g, namer=None, no_inits=False):
         import onnx_ir as ir
+        if namer is not None or no_inits:
+            tk = namer or self.token
+            return (f"(Graph {clist([tk(v) for v in g.inputs], cstr)} [] {clist([self.node_lit(n, namer, no_inits) for n in g])} "
+                    f"{clist([tk(v) for v in g.outputs], cstr)})")
         ins = clist([self.token(v) for v in g.inputs], cstr)
         # initializers registered by replacements are outside the model (their presence is checked on the proto)
         inits = clist(sorted(self.token(v) for v in g.initializers.values() if id(v) not in self.new_inits), cstr) \
@@ -381,6 +387,18 @@ class Tracer:
                 except Exception as e:
                     rec["unmodelled"].append(f"tracer error after splice: {type(e).__name__}: {e}")
 
+        namefix_cls = rr.ir_passes_common.NameFixPass
+        orig_namefix = namefix_cls.call
+        self._saved_namefix = (namefix_cls, orig_namefix)
+
+        def namefix_wrapper(self_, model):
+            result = orig_namefix(self_, model)
+            try:
+                tracer.after_namefix(model)
+            except Exception as e:  # observation only
+                tracer.errors.append(f"tracer error after NameFixPass: {type(e).__name__}: {e}")
+            return result
+        namefix_cls.call = namefix_wrapper
         rr.RewriteRuleSet._apply_to_graph_or_function = apply_wrapper
         rr.RewriteRule.try_rewrite = try_wrapper
         rr.convenience.replace_nodes_and_values = replace_wrapper
@@ -392,6 +410,39 @@ class Tracer:
             rr.RewriteRule.try_rewrite = t
             rr.convenience.replace_nodes_and_values = r
             self._saved = None
+        if getattr(self, "_saved_namefix", None):
+            cls, orig = self._saved_namefix
+            cls.call = orig
+            self._saved_namefix = None
+
+    def after_namefix(self, model):
+        """The containers as token graphs and as graphs over the names NameFixPass left, with the (token, name) table."""
+        import onnx_ir as ir
+        for top in [model.graph] + list(model.functions.values()):
+            g = top.graph if isinstance(top, ir.Function) else top
+            pairs, seen = [], set()
+
+            def tokn(v):
+                # graph / function / subgraph inputs, outputs and initializers keep their names under NameFixPass on every generated host
+                # (the relabelling model does not rename them): they are their own token here
+                if v is None:
+                    return None
+                return (v.name or "") if (v.is_graph_input() or v.is_initializer() or v.is_graph_output()) else self.token(v)
+
+            def name(v):
+                if v is None:
+                    return None
+                t, nm = tokn(v), v.name or ""
+                if t not in seen:
+                    seen.add(t)
+                    if t != nm:
+                        pairs.append((t, nm))
+                return nm
+            gname = self.graph_lit(g, namer=name, no_inits=True)
+            gtok = self.graph_lit(g, namer=tokn, no_inits=True)
+            vis = sorted({tokn(v) for gg in self._graphs_of(top) for v in gg.initializers.values()})
+            label = "main" if top is model.graph else f"fn:{top.name}:{top.overload}"
+            self.namefix.append((label, gtok, gname, clist([f"({cstr(a)}, {cstr(b)})" for a, b in pairs]), clist(vis, cstr)))
 
     def sig(self, n):
         return (n.domain if n.domain != "ai.onnx" else "", n.op_type, tuple(self.token(v) or "" for v in n.inputs),
